@@ -22,7 +22,8 @@ def currentCfg : Cfg := {
   extInputFieldExtended := true,
   cloneRegsDeep := true,
   cloneRegsFiltered := true,
-  cloneRegsByValue := false,
-  extKeepRegs := false
+  cloneRegsByValue := true,
+  extKeepRegs := true,
+  extLeafCopied := true
 }
 end PyGql.Generated.HeapCfg
